@@ -46,11 +46,13 @@ func (x *Worker) Do(fn func(stop <-chan struct{})) (done func()) {
 		x.stop, x.done = make(chan struct{}), make(chan struct{})
 		go x.wait()
 		go x.do(fn)
+		verifPoint("worker.start", x, 0)
 	}
 	if x.wg == nil {
 		x.wg = new(sync.WaitGroup)
 	}
 	x.wg.Add(1)
+	verifPoint("worker.do", x, 0)
 	return x.wg.Done
 }
 func (x *Worker) wait() {
@@ -61,15 +63,20 @@ func (x *Worker) wait() {
 			break
 		}
 		x.wg = nil
+		verifPoint("worker.take", x, 0)
 		x.mu.Unlock()
 		wg.Wait()
+		verifPoint("worker.waited", x, 0)
 	}
 	close(x.stop)
+	verifPoint("worker.stopclosed", x, 0)
 	<-x.done
 	x.stop, x.done = nil, nil
+	verifPoint("worker.exited", x, 0)
 	x.mu.Unlock()
 }
 func (x *Worker) do(fn func(stop <-chan struct{})) {
 	fn(x.stop)
+	verifPoint("worker.fnreturned", x, 0)
 	close(x.done)
 }
